@@ -23,7 +23,7 @@ def model_int(model, name_regex, default=None):
                 return int(pos.group(1))
     return default
 
-def run_overlay_test(repo, pkg_rel, test_src, run="TestVerifReplay", tags="verif", timeout=120):
+def run_overlay_test(repo, pkg_rel, test_src, run="TestVerifReplay", tags="verif", timeout=120, race=False):
     """returns (failed: bool, output). The injected test FAILS when the violation reproduces."""
     tmp = tempfile.mkdtemp(prefix="verif-replay-", dir="/var/tmp")
     try:
@@ -31,11 +31,11 @@ def run_overlay_test(repo, pkg_rel, test_src, run="TestVerifReplay", tags="verif
         open(src, "w").write(test_src)
         ov = os.path.join(tmp, "overlay.json")
         json.dump({"Replace": {os.path.join(repo, pkg_rel, "zz_verif_replay_test.go"): src}}, open(ov, "w"))
-        cmd = ["go", "test", "-overlay", ov, "-tags", tags, "-vet=off", "-count=1", "-timeout", "60s", "-run", "^%s$" % run, "./" + pkg_rel]
+        cmd = ["go", "test"] + (["-race"] if race else []) + ["-overlay", ov, "-tags", tags, "-vet=off", "-count=1", "-timeout", "60s", "-run", "^%s$" % run, "./" + pkg_rel]
         try:
             p = subprocess.run(cmd, cwd=repo, env=ENV, capture_output=True, text=True, timeout=timeout)
             out = p.stdout + p.stderr
-            return p.returncode != 0 and ("REPRODUCED" in out or "panic:" in out), out
+            return p.returncode != 0 and ("REPRODUCED" in out or "panic:" in out or "WARNING: DATA RACE" in out), out
         except subprocess.TimeoutExpired as e:
             return False, "replay timed out: %s" % e
     finally:
